@@ -178,7 +178,9 @@ def run(ctx):
             distinct_nontrivial=len(specs),
             rule="all statement skeletons of the alphabet {11 assignment operators on int32/uint64 locals, Rx, Rxx; Rd/Rdd/Pd writes; store; jump; declaration with initialiser; empty; blocks; chained assignment} "
             "as single statements, ordered pairs, arms of if / if-else / else-if / nested if under 3-5 conditions, bodies of 5 for-loop headers (constant, zero-trip, data-dependent up/down counting), "
-            "loops in branches and branches in loops, sequential and nested loops (thorough: depth 4); every program on the complete E5 domain of (a, b, n in 0..8) and its registers, budget %d states; "
+            "loops in branches and branches in loops, sequential and nested loops (thorough: depth 4); empty statements / blocks / declarations between uses of the loop variable; compound assignments with wider and boolean right operands; "
+            "unbraced if nests (dangling else, 7 shapes); 14 (thorough 24) kinds of controlling expression (narrowing / widening / sign-changing casts, unary, wrapping arithmetic, shifts, ?:, assignment) in 9 controlling positions; "
+            "the statements only bundled behaviours use otherwise (slot cancel, fatal, get_npc); every program on the complete E5 domain of (a, b, n in 0..8) and its registers, budget %d states; "
             "observed: x, y, all written registers, memory, jump" % budget,
             exhaustive=True,
             state_budget_per_program=budget,
